@@ -21,18 +21,19 @@ Print Assumptions C01_refines.
 
 (* ... and that output is exactly one syntactically valid JSON object (the RFC 8259
    parser of Enc/JsonParse.v accepts it and returns an object), contains no byte
-   below 0x20, and is followed by the configured line ending.  [owf_*] / [rend_pre]
-   are the standard-library assumptions: every finite float text (strconv) and every
-   reflected value (encoding/json) in the case is one JSON value in a delimited
-   context; the executable monitors [wf_*] check them on every case. *)
+   below 0x20, and is followed by the configured line ending.  The only hypotheses
+   are the executable monitors [wf_*] (Enc/Wf.v), evaluated by the driver on every case:
+   every finite float text of strconv is one JSON number, every reflected text of
+   encoding/json parses as one JSON value without control bytes.  (Enc/Parse5.v: the
+   parser is stable under more fuel and under a delimited suffix, so the stand-alone
+   check implies the in-context fact.) *)
 Theorem C01_wellformed : forall c ctxs ent fs,
   q_nil_caller_guard c = true -> q_layout_escaped c = true ->
   forallb wf_flds ctxs = true -> wf_flds fs = true -> wf_entry ent = true ->
-  owf_ctxs ctxs -> owf_flds fs -> rend_pre (t_rend (time_val ent)) ->
   exists out,
     encode_entry c false (with_chain c false ctxs) ent fs = Some out /\
     line_obj (resolved_le c) out = Some (jv_mem (entry_members c ctxs ent fs)).
-Proof. exact entry_valid. Qed.
+Proof. exact entry_valid_wf. Qed.
 Print Assumptions C01_wellformed.
 
 (* one line: with the default line ending the output holds exactly one line break, at its end *)
@@ -57,9 +58,7 @@ Proof. exact nilcaller_orig_refuted. Qed.
 Print Assumptions C01_nilcaller_orig_refuted.
 
 (* wire level: the oracle the driver runs accepts what the model observes *)
-Theorem C01_wire : forall i, wf i = true ->
-  owf_ctxs (ec_ctxs (dec_case i)) -> owf_flds (ec_fs (dec_case i)) -> rend_pre (t_rend (time_val (ec_ent (dec_case i)))) ->
-  spec i (model i) = true.
+Theorem C01_wire : forall i, wf i = true -> spec i (model i) = true.
 Proof. exact wire_thm. Qed.
 Print Assumptions C01_wire.
 
